@@ -27,7 +27,22 @@ func (w *Worker) cells(s Str) Str {
 		if tg.mat != nil {
 			return Str{b: tg.mat, tag: tg}
 		}
-		tg.mat = w.abstractFloatText(tg)
+		// the text is a function of (value, format, precision): one abstraction per distinct triple on a path
+		h1, h2 := liftFloat(tg.fpOf).hash()
+		key := fmt.Sprintf("%x.%x/%c/%d", h1, h2, tg.fmtC, tg.prec)
+		if tg.precT != nil {
+			p1, p2 := tg.precT.hash()
+			key += fmt.Sprintf("/%x.%x", p1, p2)
+		}
+		if w.path.absText == nil {
+			w.path.absText = map[string][]Value{}
+		}
+		if m, ok := w.path.absText[key]; ok {
+			tg.mat = m
+		} else {
+			tg.mat = w.abstractFloatText(tg)
+			w.path.absText[key] = tg.mat
+		}
 		return Str{b: tg.mat, tag: tg}
 	}
 	if tg.mat != nil {
@@ -35,6 +50,16 @@ func (w *Worker) cells(s Str) Str {
 	}
 	p := w.path
 	t := tg.intOf
+	// the digits are a function of the integer: one materialisation per distinct term on a path
+	ih1, ih2 := t.hash()
+	ikey := fmt.Sprintf("int/%x.%x", ih1, ih2)
+	if p.absText == nil {
+		p.absText = map[string][]Value{}
+	}
+	if m, ok := p.absText[ikey]; ok {
+		tg.mat = m
+		return Str{b: m, tag: tg}
+	}
 	neg := p.Branch(tLt(t, intConst(0)))
 	abs := t
 	if neg {
@@ -85,6 +110,7 @@ func (w *Worker) cells(s Str) Str {
 	p.assertTerm(tEq(sum, abs))
 	p.modelOK = false
 	tg.mat = cellsV
+	p.absText[ikey] = cellsV
 	return Str{b: cellsV, tag: tg}
 }
 
@@ -138,7 +164,7 @@ func init() {
 		if _, symPrec := a[2].(*Term); symPrec && ok1 && ok3 {
 			// FormatFloat does not panic for any precision; its memory use for huge precisions is outside every claim
 			fr.w.stub("strconv.FormatFloat with a symbolic precision: opaque result (memory use outside the claim)")
-			return Str{tag: &StrTag{isFloat: true, fpOf: a[0], fmtC: byte(fm), prec: -2}}, true
+			return Str{tag: &StrTag{isFloat: true, fpOf: a[0], fmtC: byte(fm), prec: -2, precT: a[2].(*Term)}}, true
 		}
 		if !ok1 || !ok2 || !ok3 {
 			return nil, false
@@ -243,15 +269,21 @@ func init() {
 		if fr.w.opaqueParseFloat {
 			w := fr.w
 			w.stub("strconv.ParseFloat of symbolic bytes: arbitrary (float64, nil) or (0, error)")
-			if len(w.cells(s).b) > 0 && w.path.Choice(2) == 0 {
-				key := "ParseFloat"
-				for _, c := range w.cells(s).b {
-					h1, h2 := liftIntAny(c).hash()
-					key += fmt.Sprintf("/%x.%x", h1, h2)
-				}
-				if w.path.opaque == nil {
-					w.path.opaque = map[string]*Term{}
-				}
+			key := "ParseFloat"
+			for _, c := range w.cells(s).b {
+				h1, h2 := liftIntAny(c).hash()
+				key += fmt.Sprintf("/%x.%x", h1, h2)
+			}
+			if w.path.opaque == nil {
+				w.path.opaque = map[string]*Term{}
+			}
+			// one decision and one value per distinct byte string on a path (ParseFloat is a function)
+			dec, seen := w.path.opaque[key+"?"]
+			if !seen {
+				dec = boolConst(len(w.cells(s).b) > 0 && w.path.Choice(2) == 0)
+				w.path.opaque[key+"?"] = dec
+			}
+			if dec.bval {
 				t, ok := w.path.opaque[key]
 				if !ok {
 					t = w.path.freshFP()
